@@ -45,7 +45,8 @@ type trial struct {
 	delay   time.Duration // responder delay; <0 = never reply
 	timeout time.Duration // 0 = no timeout
 	natt    int
-	mode    int // responder calls ack: 1 = once, 2 = twice, 3 = twice from two goroutines
+	mode    int  // responder calls ack: 1 = once, 2 = twice, 3 = twice from two goroutines
+	big     bool // reply carries bigPad
 	dir     string
 	res     *result
 }
@@ -89,8 +90,15 @@ func registerResponder(s onEventer, seen *sync.Map) {
 	s.OnEvent("qb", func(uid, delayUs, mode int, b1, b2 sio.Binary, ack func(int, sio.Binary, sio.Binary)) {
 		respond(uid, delayUs, mode, func() { ack(token(uid), b2, b1) })
 	})
+	s.OnEvent("qL", func(uid, delayUs, mode int, ack func(int, string)) {
+		respond(uid, delayUs, mode, func() { ack(token(uid), bigPad) })
+	})
 	s.OnEvent("probe", func(n int, ack func(int)) { ack(n + 1) })
 }
+
+// bigPad makes decoding a reply take about a millisecond or more: the window between "reply matched
+// to its callback" and "callback entered" becomes wide enough for a timer to fire inside it.
+var bigPad = strings.Repeat("0123456789abcdef\\\"\u00e9", 32000)
 
 type emitterSock interface {
 	Emit(string, ...any)
@@ -124,6 +132,16 @@ func issue(s emitterSock, t *trial) {
 	delayUs := int(t.delay / time.Microsecond)
 	if t.delay < 0 {
 		delayUs = -1
+	}
+	if t.big {
+		s.Timeout(t.timeout).Emit("qL", t.uid, delayUs, t.mode, func(err error, tok int, pad string) {
+			r.mu.Lock()
+			r.err, r.tok, r.at = err, tok, time.Now()
+			r.binOK = err != nil || pad == bigPad
+			r.mu.Unlock()
+			r.calls.Add(1)
+		})
+		return
 	}
 	if t.natt == 0 {
 		if t.timeout > 0 {
@@ -222,13 +240,21 @@ func judge(run *vk.Run, t *trial, ctx string) {
 			band = "race"
 		}
 	}
+	if t.big {
+		wit["big_reply"] = true
+		run.Count("big_reply_"+class, 1)
+	}
 	if run.DistinctCount()%8 == 0 {
 		wit["outcome"] = class
 		wit["callback_invocations"] = calls
 		wit["band"] = band
 		run.Sample(wit)
 	}
-	run.Distinct(fmt.Sprintf("%s/%s/T=%v/band=%s/att=%d/mode=%d/%s", ctx, t.dir, t.timeout, band, t.natt, t.mode, class))
+	if t.big {
+		run.Distinct(fmt.Sprintf("%s/%s/big/mode=%d/%s", ctx, t.dir, t.mode, class))
+	} else {
+		run.Distinct(fmt.Sprintf("%s/%s/T=%v/band=%s/att=%d/mode=%d/%s", ctx, t.dir, t.timeout, band, t.natt, t.mode, class))
+	}
 	run.Count("outcome_"+class, 1)
 	if band == "race" {
 		run.Count("race_band_"+class, 1)
@@ -334,6 +360,67 @@ func runOnline(run *vk.Run, transports []string, timeouts []time.Duration, reps 
 	if len(f) > 0 {
 		run.Violation(vk.Violation{Sub: "socket-unusable", Fields: map[string]any{"ctx": "online"},
 			What: fmt.Sprintf("lifecycle callback during ack trials: %s %s", f[0].Who, f[0].What), Witness: map[string]any{"faults": fmt.Sprint(f)}})
+	}
+}
+
+// Big replies inside the race band, one trial at a time: the reply (about 600 KB of JSON) takes long
+// to decode, so "timer fires while the matched reply is on its way into the callback" is hit by
+// a fair share of the trials instead of once in 10^5. The oracle is the same: exactly one invocation,
+// reply xor timeout error.
+func runBigReplyRace(run *vk.Run, transports []string, n int) {
+	w, err := e2e.New(e2e.Config{Transports: transports, Clients: 1, WaitUpgrade: len(transports) == 2,
+		OnServerSocket: func(_ int, ss sio.ServerSocket) { registerResponder(ss, nil) },
+		OnClientSocket: func(_ int, cs sio.ClientSocket) { registerResponder(cs, nil) },
+	})
+	if err != nil {
+		run.Inconclusive("big-reply world: " + err.Error())
+		return
+	}
+	defer w.Close()
+	rnd := run.Rand("c03/big/" + strings.Join(transports, "+"))
+	for _, dir := range []string{"c2s", "s2c"} {
+		var sock emitterSock = w.Clients[0].S
+		if dir == "s2c" {
+			sock = w.Clients[0].SS()
+		}
+		// round-trip time of a big reply (includes decoding), to centre the band
+		var rtt time.Duration
+		for i := 0; i < 3; i++ {
+			t := &trial{uid: nextUID(), delay: 0, timeout: 10 * time.Second, big: true, mode: 1, dir: dir, res: &result{}}
+			issue(sock, t)
+			vk.WaitUntil(12*time.Second, func() bool { return t.res.calls.Load() > 0 })
+			t.res.mu.Lock()
+			d := t.res.at.Sub(t.res.emitted)
+			t.res.mu.Unlock()
+			if t.res.calls.Load() == 0 {
+				run.Inconclusive("big-reply " + dir + ": calibration reply not received")
+				return
+			}
+			if i == 0 || d < rtt {
+				rtt = d
+			}
+			run.Eval(1)
+			judge(run, t, "online-big")
+		}
+		run.Note("big_reply_rtt_"+dir+"_"+strings.Join(transports, "+"), rtt.String())
+		T := 30*time.Millisecond + rtt
+		var ts []*trial
+		for i := 0; i < n; i++ {
+			// reply expected to reach the callback at T - rtt .. T + 1 ms + jitter
+			d := T - rtt - 2*time.Millisecond + time.Duration(rnd.Int63n(int64(rtt+4*time.Millisecond)))
+			if d < 0 {
+				d = 0
+			}
+			t := &trial{uid: nextUID(), delay: d, timeout: T, big: true, mode: 1 + i%3, dir: dir, res: &result{}}
+			issue(sock, t)
+			vk.WaitUntil(T+10*time.Second, func() bool { return t.res.calls.Load() > 0 })
+			ts = append(ts, t)
+		}
+		time.Sleep(100 * time.Millisecond) // let double invocations surface
+		for _, t := range ts {
+			run.Eval(1)
+			judge(run, t, "online-big")
+		}
 	}
 }
 
@@ -561,6 +648,9 @@ func main() {
 	}
 	for _, tr := range [][]string{{"websocket"}, {"polling"}, {"polling", "websocket"}} {
 		runOnline(run, tr, timeouts, reps)
+	}
+	for _, tr := range [][]string{{"websocket"}, {"polling"}} {
+		runBigReplyRace(run, tr, run.Pick(40, 300))
 	}
 	runWire(run, "websocket", run.Pick(100, 1000))
 	runWire(run, "polling", run.Pick(100, 1000))
